@@ -18,6 +18,8 @@
 # define VERIF_OFFSET(p)		__CPROVER_POINTER_OFFSET(p)
 # define VERIF_OBJ_UPTO(p,n)		__CPROVER_object_upto((p),(n))
 # define VERIF_OBJ_WHOLE(p)		__CPROVER_object_whole(p)
+/* days from 1970-01-01 to the first day of year y (proleptic Gregorian calendar), for the time-conversion loop invariants */
+# define VERIF_DAYS_BEFORE_YEAR(y)	((int64_t)365 * ((y) - 1970) + (((((y) - 1) / 4) - (((y) - 1) / 100) + (((y) - 1) / 400)) - 477))
 /* ghost index for "for all k" loop invariants: a global the code never assigns */
 extern size_t verif_gk;
 /* ghost record of the entropy gateway (set only by the contract that replaces rand_bytes) */
